@@ -56,6 +56,9 @@ def universe(tier, seed):
     # declared parameters reach the action
     gp = grammar(rule('s', seq(call('y'), opt(call('y')))), rule('y', alt(tok('a'), tok('b')), params=['T', '1']))
     items.append({'g': gp, 'texts': texts, 'label': 'params', 'nomemo': False, 'params': {'y': ['T', '1']}})
+    # a rule's type and base classes ARE its declared parameter (name::Type::Base is the parameter 'Type::Base')
+    gp2 = grammar(rule('s', seq(call('y'), opt(call('y')))), rule('y', alt(tok('a'), tok('b')), typ=['Foo', 'Bar']))
+    items.append({'g': gp2, 'texts': texts, 'label': 'params', 'nomemo': False, 'params': {'y': ['Foo::Bar']}})
     return items
 
 
